@@ -578,7 +578,7 @@ class PendingAssign(PendingNode[Assign | AnnAssign]):
         return self.nsp.get_assign(target.id, value)
 
     def assign_subscript(self, target: Subscript, value: expr):
-        _slice = target.slice
+        _slice = expr_transf(self.nsp, target.slice)
         if isinstance(_slice, Slice):
             _slice = utils.convert_slice(_slice)
 
@@ -754,7 +754,7 @@ class PendingAugAssign(PendingNode[AugAssign]):
             target = self.node.target
             subscript_parent = expr_transf(self.nsp, target.value)
 
-            slice_expr = target.slice
+            slice_expr = expr_transf(self.nsp, target.slice)
             if isinstance(slice_expr, Slice):
                 slice_expr = utils.convert_slice(slice_expr)
 
@@ -762,7 +762,7 @@ class PendingAugAssign(PendingNode[AugAssign]):
             return_list.append(
                 NamedExpr(
                     target=tmp_slice_name,
-                    value=expr_transf(self.nsp, slice_expr),
+                    value=slice_expr,
                 )
             )
 
